@@ -10,6 +10,8 @@ import (
 	"encoding/json"
 	"fmt"
 	"os"
+	"strconv"
+	"strings"
 	"testing"
 	"time"
 )
@@ -131,13 +133,9 @@ func vfGenCacheCase(r *vfRand, id int, profile string) *vfCacheCase {
 	return cs
 }
 
-// vfEnumCacheCases: every history of length n over `nkeys` keys and the operation
-// alphabet {set live, set expired-on-arrival, get, advance past live TTL}
-func vfEnumCacheCases(capacity, nkeys, n int, emit func(*vfCacheCase)) {
-	type alpha struct {
-		o   string
-		ttl int64
-	}
+// vfEnumLetters: the operation alphabet of the enumeration over `nkeys` keys:
+// {set live, set expired-on-arrival, get} per key + {advance past the live TTL}
+func vfEnumLetters(nkeys int) []vfCacheOp {
 	var letters []vfCacheOp
 	for k := 0; k < nkeys; k++ {
 		letters = append(letters,
@@ -145,22 +143,38 @@ func vfEnumCacheCases(capacity, nkeys, n int, emit func(*vfCacheCase)) {
 			vfCacheOp{O: "set", K: k, V: 2, TTL: -int64(time.Hour)},
 			vfCacheOp{O: "get", K: k})
 	}
-	letters = append(letters, vfCacheOp{O: "adv", D: int64(61 * time.Minute)})
-	idx := make([]int, n)
-	id := 0
-	for {
-		cs := &vfCacheCase{ID: id, Kind: "enum", Cap: capacity}
-		v := int64(1)
-		for _, i := range idx {
-			op := letters[i]
-			if op.O == "set" {
-				op.V = v
-				v++
-			}
-			cs.Ops = append(cs.Ops, op)
+	return append(letters, vfCacheOp{O: "adv", D: int64(61 * time.Minute)})
+}
+
+// vfEnumWord builds the case for one word over the alphabet; with prefill the
+// cache is first filled to capacity (keys 0..capacity-1, live) so that every
+// word of the enumeration acts on a full cache
+func vfEnumWord(capacity int, prefill bool, letters []vfCacheOp, idx []int, kind string) *vfCacheCase {
+	cs := &vfCacheCase{Kind: kind, Cap: capacity}
+	v := int64(1)
+	if prefill {
+		for k := 0; k < capacity; k++ {
+			cs.Ops = append(cs.Ops, vfCacheOp{O: "set", K: k, V: v, TTL: 2 * int64(time.Hour)})
+			v++
 		}
-		emit(cs)
-		id++
+	}
+	for _, i := range idx {
+		op := letters[i]
+		if op.O == "set" {
+			op.V = v
+			v++
+		}
+		cs.Ops = append(cs.Ops, op)
+	}
+	return cs
+}
+
+// vfEnumCacheCases: EVERY history of length n over the alphabet (see vfEnumLetters)
+func vfEnumCacheCases(capacity, nkeys, n int, prefill bool, emit func(*vfCacheCase)) {
+	letters := vfEnumLetters(nkeys)
+	idx := make([]int, n)
+	for {
+		emit(vfEnumWord(capacity, prefill, letters, idx, "enum"))
 		p := n - 1
 		for p >= 0 {
 			idx[p]++
@@ -174,6 +188,30 @@ func vfEnumCacheCases(capacity, nkeys, n int, emit func(*vfCacheCase)) {
 			return
 		}
 	}
+}
+
+// vfEnumSpecs parses "cap:keys:depth[:extra],..." (extra: prefill flag 0/1, or a sample count)
+func vfEnumSpecs(s string) [][]int {
+	var out [][]int
+	for _, part := range strings.Split(s, ",") {
+		part = strings.TrimSpace(part)
+		if part == "" {
+			continue
+		}
+		var row []int
+		for _, f := range strings.Split(part, ":") {
+			n, err := strconv.Atoi(f)
+			if err != nil {
+				panic("bad enumeration spec " + part)
+			}
+			row = append(row, n)
+		}
+		if len(row) < 3 {
+			panic("bad enumeration spec " + part)
+		}
+		out = append(out, row)
+	}
+	return out
 }
 
 func TestVF_Cache(t *testing.T) {
@@ -213,13 +251,38 @@ func TestVF_Cache(t *testing.T) {
 		id++
 	}
 	if profile == "C13" {
-		depth := vfEnvInt("VERIF_ENUM_DEPTH", 4)
-		vfEnumCacheCases(2, 3, depth, func(cs *vfCacheCase) {
-			cs.ID = id
-			vfRunCacheCase(cs)
-			out.put(cs)
-			id++
-		})
+		// exhaustive part: VERIF_ENUM = "cap:keys:depth[:prefill],..." (default: capacity 2, 3 keys, VERIF_ENUM_DEPTH)
+		spec := os.Getenv("VERIF_ENUM")
+		if spec == "" {
+			spec = fmt.Sprintf("2:3:%d", vfEnvInt("VERIF_ENUM_DEPTH", 4))
+		}
+		for _, e := range vfEnumSpecs(spec) {
+			prefill := len(e) > 3 && e[3] != 0
+			vfEnumCacheCases(e[0], e[1], e[2], prefill, func(cs *vfCacheCase) {
+				cs.ID = id
+				vfRunCacheCase(cs)
+				out.put(cs)
+				id++
+			})
+		}
+		// sampled part (deeper words, drawn from the same PRNG): VERIF_ENUM_SAMPLE = "cap:keys:depth:count,..."
+		for _, e := range vfEnumSpecs(os.Getenv("VERIF_ENUM_SAMPLE")) {
+			if len(e) < 4 {
+				continue
+			}
+			letters := vfEnumLetters(e[1])
+			idx := make([]int, e[2])
+			for i := 0; i < e[3]; i++ {
+				for j := range idx {
+					idx[j] = r.intn(len(letters))
+				}
+				cs := vfEnumWord(e[0], true, letters, idx, "enum-sample")
+				cs.ID = id
+				vfRunCacheCase(cs)
+				out.put(cs)
+				id++
+			}
+		}
 	}
 	vfWriteJSON(t, "params.json", map[string]interface{}{
 		"default_max_size":  DefaultMaxSize,
